@@ -430,17 +430,22 @@ func (*accState).Reset
 
 /*@
 // ---------------------------------------------------------------- C06: built-in scalar functions never panic on validated arguments
+pred halfAway(x) := ite(x >= 0.0, floor(x + 0.5), 0.0 - floor(0.0 - x + 0.5))
+
 func (*AbsFunction).Execute
   props C06
   option safety
   requires validated-arguments: f != nil && len(args) >= 1 && len(args) <= 1
-  modifies *
+  ensures absolute-value: second(cast.ToFloat64E(args[0])) == nil ==> result1 == nil && result0 == boxof(ite(cast.ToFloat64E(args[0]) >= 0.0, cast.ToFloat64E(args[0]), 0.0 - cast.ToFloat64E(args[0])), float64)
+  ensures non-numeric-argument-is-an-error-not-a-panic: !(second(cast.ToFloat64E(args[0])) == nil) ==> result1 != nil && result0 == nil
 
 func (*SqrtFunction).Execute
   props C06
   option safety
   requires validated-arguments: f != nil && len(args) >= 1 && len(args) <= 1
-  modifies *
+  ensures square-root-of-a-non-negative-number: second(cast.ToFloat64E(args[0])) == nil && cast.ToFloat64E(args[0]) >= 0.0 ==> result1 == nil && result0 == boxof(sqrt(cast.ToFloat64E(args[0])), float64)
+  ensures negative-argument-is-an-error-not-a-panic: second(cast.ToFloat64E(args[0])) == nil && cast.ToFloat64E(args[0]) < 0.0 ==> result1 != nil && result0 == nil
+  ensures non-numeric-argument-is-an-error-not-a-panic: !(second(cast.ToFloat64E(args[0])) == nil) ==> result1 != nil && result0 == nil
 
 func (*AcosFunction).Execute
   props C06
@@ -512,7 +517,8 @@ func (*FloorFunction).Execute
   props C06
   option safety
   requires validated-arguments: f != nil && len(args) >= 1 && len(args) <= 1
-  modifies *
+  ensures largest-integer-not-above: second(cast.ToFloat64E(args[0])) == nil ==> result1 == nil && result0 == boxof(floor(cast.ToFloat64E(args[0])), float64)
+  ensures non-numeric-argument-is-an-error-not-a-panic: !(second(cast.ToFloat64E(args[0])) == nil) ==> result1 != nil && result0 == nil
 
 func (*LnFunction).Execute
   props C06
@@ -554,13 +560,17 @@ func (*RoundFunction).Execute
   props C06
   option safety
   requires validated-arguments: f != nil && len(args) >= 1 && len(args) <= 2
-  modifies *
+  ensures null-in-null-out: args[0] == nil ==> result0 == nil && result1 == nil
+  ensures one-argument-rounds-half-away-from-zero: args[0] != nil && len(args) == 1 && second(cast.ToFloat64E(args[0])) == nil ==> result1 == nil && result0 == boxof(halfAway(cast.ToFloat64E(args[0])), float64)
+  ensures with-a-precision-it-rounds-half-away-from-zero-at-that-decimal-place: args[0] != nil && len(args) == 2 && args[1] != nil && second(cast.ToFloat64E(args[0])) == nil && second(cast.ToIntE(args[1])) == nil ==> result1 == nil && result0 == boxof(halfAway(cast.ToFloat64E(args[0]) * pow(10.0, float64(cast.ToIntE(args[1])))) / pow(10.0, float64(cast.ToIntE(args[1]))), float64)
+  ensures non-numeric-argument-is-an-error-not-a-panic: args[0] != nil && !(second(cast.ToFloat64E(args[0])) == nil) ==> result1 != nil && result0 == nil
 
 func (*SignFunction).Execute
   props C06
   option safety
   requires validated-arguments: f != nil && len(args) >= 1 && len(args) <= 1
-  modifies *
+  ensures sign-of-the-number: second(cast.ToFloat64E(args[0])) == nil ==> result1 == nil && result0 == boxof(ite(cast.ToFloat64E(args[0]) > 0.0, 1, ite(cast.ToFloat64E(args[0]) < 0.0, -1, 0)), int)
+  ensures non-numeric-argument-is-an-error-not-a-panic: !(second(cast.ToFloat64E(args[0])) == nil) ==> result1 != nil && result0 == nil
 
 func (*SinFunction).Execute
   props C06
